@@ -46,7 +46,7 @@ def updateAchromatic (b : Bytes) : List Act :=
   b.map (fun x => Act.data (expandBits x))
 
 def updateChromatic (c : Bytes) : List Act :=
-  [.cmd Command.DataStartTransmission2, .data c]
+  [W, .cmd Command.DataStartTransmission2, .data c]   -- (fix 6d2fc85: waits first, like update_achromatic_frame)
 
 def updateFrame (d : DState) (b : Bytes) : List Act :=
   [W] ++ sendResolution ++ [.cmd Command.DataStartTransmission1] ++
